@@ -1,8 +1,8 @@
 (* Property C18: printed form is canonical and re-readable; exit status is the program's result
    ONLY statements: each theorem is closed by `exact` of a lemma proved elsewhere and followed by Print Assumptions. *)
-From Coq Require Import ZArith NArith List Bool Lia Permutation Sorting FMapPositive.
+From Coq Require Import ZArith NArith List Bool Lia Permutation SpecFloat Sorting FMapPositive.
 Import ListNotations.
-Require Import Base Strings Builtins PrintInt Float Num Interp PrintDict Machine Spec HeapFacts Refine1 Refine2 RunG Pure IOSpec Cli.
+Require Import Base Strings Builtins PrintInt FloatText FloatTextProofs Float Interp Machine Spec Refine2 RunG RealText Num PrintDict HeapFacts Refine1 Pure IOSpec Cli.
 Open Scope Z_scope.
 (* reading the printed form of any integer in base 10 gives it back *)
 Theorem int_print_parse n :
@@ -14,6 +14,47 @@ Theorem int_print_injective a b :
   str_of_int a = str_of_int b -> a = b.
 Proof. exact (PrintInt.int_print_injective a b). Qed.
 Print Assumptions int_print_injective.
+
+(* REALS: whatever text the printer (Python's repr: the shortest digits that read back, CPython's layout - fixed or exponent notation, '.0' added, two exponent digits) gives for a real - zeros of either sign, infinities, NaN, every finite double it finds digits for - float() of that text is the same real, sign, mantissa and exponent *)
+Theorem repr_reads_back f txt :
+  repr_float f = Some txt -> parse_float_text txt = PFloat f.
+Proof. exact (FloatTextProofs.repr_reads_back f txt). Qed.
+Print Assumptions repr_reads_back.
+
+(* the digits the printer settles on have no trailing zero and read back to the double (rounding to nearest, ties to even, computed exactly) *)
+Theorem shortest_reads_back m e c t :
+  shortest m e = Some (c, t) -> 0 < c /\ c mod 10 <> 0 /\ SFcompare (float_of_decimal false c t) (S754_finite false m e) = Some Eq.
+Proof. exact (FloatText.shortest_reads_back m e c t). Qed.
+Print Assumptions shortest_reads_back.
+
+(* every layout of digits and decimal-point position that the printer can produce is read as exactly those digits and that exponent *)
+Theorem text_parses (neg:bool) (ds:list N) (decpt:Z) :
+  digs ds -> ds <> [] -> int_of_digits ds 0 mod 10 <> 0 ->
+  parse_float_text ((if neg then [45%N] else []) ++ layout ds decpt) = PFloat (float_of_decimal neg (int_of_digits ds 0) (decpt - Z.of_nat (length ds))).
+Proof. exact (FloatTextProofs.text_parses neg ds decpt). Qed.
+Print Assumptions text_parses.
+
+Theorem string_of_real (rec : list positive -> heap -> world -> task -> out) sp f ip h w :
+  runG rec value ip h w (bi_string sp [VFloat f]) = DoneG h w (inl (VStr (show_float f))) 0.
+Proof. exact (RealText.string_of_real rec sp f ip h w). Qed.
+Print Assumptions string_of_real.
+
+Theorem real_of_string (rec : list positive -> heap -> world -> task -> out) sp s ip h w f :
+  parse_float_text s = PFloat f -> runG rec value ip h w (bi_float sp [VStr s]) = DoneG h w (inl (VFloat f)) 0.
+Proof. exact (RealText.real_of_string rec sp s ip h w f). Qed.
+Print Assumptions real_of_string.
+
+Theorem real_of_bad_string (rec : list positive -> heap -> world -> task -> out) sp s ip h w :
+  parse_float_text s = PBad -> runG rec value ip h w (bi_float sp [VStr s]) = DoneG h w (inr (mkerr c_value sp)) 0.
+Proof. exact (RealText.real_of_bad_string rec sp s ip h w). Qed.
+Print Assumptions real_of_bad_string.
+
+(* in the main model: ㅅㅅ applied to the string ㅁㅈ gives for a real is that real *)
+Theorem read_what_was_printed (rec : list positive -> heap -> world -> task -> out) sp f txt ip h w :
+  repr_float f = Some txt ->
+  runG rec value ip h w (bi_float sp [VStr (show_float f)]) = DoneG h w (inl (VFloat f)) 0.
+Proof. exact (RealText.read_what_was_printed rec sp f txt ip h w). Qed.
+Print Assumptions read_what_was_printed.
 
 (* the formatter's sorted entry list is the same for EVERY insertion order (any permutation of the printed entries): pair_le is a total order and insertion sort is canonical *)
 Theorem dict_print_order_free l l' :
